@@ -188,6 +188,7 @@ def run_config(kinds, cfg, scratch, res, found):
     if exp["must"] != "neutral":
       res["traces"] += 1
     res["outcomes"].add("{}|{}".format(exp["must"], oc))
+    res["hist"]["{}|{}".format(exp["must"], oc)] += 1
     wr = None
     if b.g is not None and b.err is None:
       try:
@@ -218,6 +219,7 @@ def work(item):
   """One multiset of kinds through all configurations of its plan row."""
   kinds, cfgs, scratch = item
   res = new_result()
+  res["hist"] = collections.Counter()
   found = []
   for cfg in cfgs:
     exp = run_config(kinds, cfg, scratch, res, found)
@@ -276,10 +278,24 @@ def run(ctx):
     items.sort(key=lambda it: (-len(it[0]) , -len(it[1])))
     found = []
     n_sets = 0
+    hist = collections.Counter()
+    procs = schedules.spawn_slices("c13")
     for r in ctx.pmap(work, items, chunksize=4):
       found.extend(r.pop("found"))
+      hist.update(r.pop("hist"))
       n_sets += 1
       ctx.merge(r)
+    summary, diffs = schedules.collect_slices(procs, slice_cases())
+  ctx.extra["hashseed_crosschecks"] = summary
+  for sd, case, mine, other in diffs[:20]:
+    ctx.violation(mkviolation(
+        "hashseed-dependent", {"case": case, "seed": str(sd)},
+        {"hashseed": sd, "case": case, "clause": "hashseed-dependent"},
+        "same outcome under PYTHONHASHSEED=0 and {}".format(sd),
+        {"seed0": mine, "seed{}".format(sd): other},
+        "# run twice: PYTHONHASHSEED=0 and PYTHONHASHSEED={}\n".format(sd) +
+        "# case " + case))
+  ctx.extra["expectation_vs_outcome_histogram"] = dict(sorted(hist.items()))
   ctx.extra["multisets"] = n_sets
   ctx.extra["failing_cases_before_minimisation"] = len(found)
   ctx.bound_completed = {"max_kinds": max(r[1] for r in rows)}
@@ -307,6 +323,25 @@ def run(ctx):
   ctx.extra["minimal_failing_multisets"] = reported
 
 
+def slice_cases():
+  """Fixed slice for the hash-seed cross-check: every multiset of <= 3 kinds,
+  version inferred, standard dialect, entry points list and objs; digest of
+  (outcome, written records) per arrival order."""
+  out = {}
+  for kinds in rv.multisets(3):
+    lines = rv.instantiate(kinds, "standard")
+    for entry in ("list", "objs"):
+      for order in schedules.orders(len(lines)):
+        ol = [lines[i] for i in order]
+        b = schedules.build(entry, ol)
+        wr = None
+        if b.g is not None and b.err is None:
+          wr = sorted(observe.safe_str(l) for l in b.g.lines)
+        out["{} / {} / {}".format(" ".join(kinds), entry, order)] = \
+            h([b.outcome, wr])
+  return out
+
+
 def cfg_rank(cfg):
   version, dialect, vlevel, entry = cfg
   return (DIALECTS.index(dialect), VERSIONS.index(version), vlevel,
@@ -314,11 +349,20 @@ def cfg_rank(cfg):
 
 
 def replay(w, ctx):
+  if w.get("clause") == "hashseed-dependent":
+    own = slice_cases()
+    summary, diffs = schedules.collect_slices(
+        schedules.spawn_slices("c13", seeds=(w["hashseed"],)), own)
+    return [mkviolation("hashseed-dependent",
+                        {"case": c, "seed": str(sd)}, w, "same outcome",
+                        {"seed0": a, "other": b}) for sd, c, a, b in diffs
+            if c == w["case"]]
   kinds = tuple(w["kinds"])
   cfg = (w["version"], w["dialect"], w["vlevel"], w["entry"])
   out = []
   with schedules.Scratch("c13_") as scratch:
     res = new_result()
+    res["hist"] = collections.Counter()
     found = []
     run_config(kinds, cfg, scratch, res, found)
     lines = rv.instantiate(kinds, cfg[1])
